@@ -224,7 +224,9 @@ func anchorOrigin(ao int) interface{} {
 		// (member names whose UTF-16 order differs from their UTF-8 / code point order)
 		// ... and a number that Go and ECMAScript write differently (2.5e-07 / 2.5e-7)
 		// ... a minus zero, and control characters whose escapes contain hexadecimal letters
-		return map[string]interface{}{"o": ao - 100, "\ufb01": 1, "\U0001f600": 2.5e-7, "z": math.Copysign(0, -1), "c\x0b\x1f": "\x0e\x1a\x1b\x7f\x01"}
+		return map[string]interface{}{"o": ao - 100, "\ufb01": 1, "\U0001f600": 2.5e-7, "z": math.Copysign(0, -1),
+			// (a run of one control character that differs from origin to origin)
+			"c\x0b\x1f": "\x0e\x1a\x1b\x7f\x01" + strings.Repeat(string(rune(1+ao%7)), 30)}
 	default:
 		return fmt.Sprintf("origin-%d", ao)
 	}
